@@ -18,7 +18,8 @@ CLAIMS = {
             "allocator-agreeing sizes, extension-block publication order, protect/assign protocol, help_scan adoption. Clauses only.", PATHS,
             "DESIGN.md §4 C02"),
     "C03": ("other", "Exactly-one-of {free, keep} per scanned element on every path, compaction count, full-range loops, retire() push/scan "
-            "coupling, help_scan moves and clears, destructor drains of every record (HP and DHP). Cross-thread exactly-once is not decided.",
+            "coupling, help_scan moves and clears, destructor drains of every record (HP and DHP); DHP retired blocks are released without disposing only "
+            "after a fresh emptiness test (R03.8). Cross-thread exactly-once is not decided.",
             "static analysis: path tables and def-use rules over clang-extracted CFGs", "DESIGN.md §4 C03"),
     "C04": ("other", "Path-exhaustive obligations on the grace-period machinery of all four flavours: two flip-and-wait phases (signal flavour: "
             "membar / two epoch switches each followed by a quiescent-state wait / membar) inside the RCU lock scope, reclamation only "
